@@ -16,6 +16,16 @@ Three ties between the Lean model (`Model/BranchInstr.lean`, theorems in `Props/
    v out of p's node at least once; branch-less goal covered <=> code object entered; every conditional
    jump / for-loop has a predicate with both goals.  The recorded tracer callbacks are replayed on the
    model's trace (`Trace.update`, `branchCovered`) and compared with `BranchGoal.is_covered`.
+   Every callback on the real `ExecutionTracer` is recorded with its nesting, how it ended (distances /
+   the evaluation raised / dropped by `_early_return`) and the `enabled` flag after it; the model tracer
+   (`TState.call`, Lean) replays the records and must accept them, end every callback with the same flag
+   and arrive at the same coverage.  `kind: xrun` programs (generator `XGen` below) compare operands of
+   mixed types, raising dunders (defined in an uninstrumented helper module) and almost-equal floats inside
+   `try/except`, loops, callers that catch, and go on evaluating predicates afterwards.
+4. tracer-level histories (`kind: cb`): callbacks on a real `ExecutionTracer` with values whose comparison /
+   truth value raises or is a near miss, each followed by the operation the interpreter itself performs
+   (ground truth = the outcome Python yields); `kind: hist`: histories of C04-good records with boundary
+   distances (5e-324 … 1e-9 … inf) through the real `ExecutionTrace` and goals.  Same oracle: reported <=> taken.
 """
 from __future__ import annotations
 
@@ -273,6 +283,379 @@ def export_code_object(code: types.CodeType) -> dict:
 
 
 # ---------------------------------------------------------------------------------------------
+# values whose comparison / truth value / membership test raises or is a near miss
+# ---------------------------------------------------------------------------------------------
+VALS_MODULE = "verif_c03_vals"
+#: Source of an *uninstrumented* helper module the generated programs import.  Operator code that raises
+#: must live outside the module under test: the tracer evaluates a comparison itself before the program
+#: does, so a dunder of the module under test that raises is entered only while the tracer is disabled
+#: (design limit of the tracer, see design_notes/C03.md) — the oracle would (rightly) report it.
+VALS_SRC = '''
+class Unorderable:
+    """ordering raises TypeError (like unrelated builtins), ==/!= raise ValueError, the truth value raises
+    ValueError, membership raises KeyError; all pure"""
+    def __init__(self, k):
+        self.k = k
+    def __lt__(self, other):
+        raise TypeError("unorderable")
+    __le__ = __gt__ = __ge__ = __lt__
+    def __eq__(self, other):
+        raise ValueError("no equality")
+    __ne__ = __eq__
+    __hash__ = None
+    def __bool__(self):
+        raise ValueError("no truth value")
+    def __contains__(self, item):
+        raise KeyError(item)
+    def __repr__(self):
+        return "Unorderable(%d)" % self.k
+
+class Weird:
+    """comparisons never raise: ordering and equality by k; falsy when k == 0"""
+    def __init__(self, k):
+        self.k = k
+    def __lt__(self, other):
+        return self.k < getattr(other, "k", 0)
+    def __le__(self, other):
+        return self.k <= getattr(other, "k", 0)
+    def __eq__(self, other):
+        return self.k == getattr(other, "k", None)
+    def __hash__(self):
+        return hash(self.k)
+    def __bool__(self):
+        return self.k != 0
+    def __repr__(self):
+        return "Weird(%d)" % self.k
+
+MIXED = [0, 1, -2, "a", "b", "", None, 2.5, (1, 2), [1], {"a": 1}, Unorderable(1), 5, True, b"x", 1j,
+         Weird(0), Weird(3), {1, 2}, 10 ** 400]
+NEAR = [0.1 + 0.2, 0.3, 1.0, 1.0 + 1e-12, 1.0 - 1e-12, 2.5, 2.5 - 1e-10, 1e-300, 5e-324, 0.0, -0.0,
+        -1e-300, 1e-9, 1e-10, 3, 1, 0, 2 ** 53 + 1, float(2 ** 53), float("inf")]
+BOTH = MIXED + NEAR
+'''
+#: values a call can pass directly (they survive JSON unchanged)
+DIRECT_MIXED = [0, 1, -2, "a", "b", "", None, 2.5, [1], [1, 2], {"a": 1}, True, 5, 10 ** 30]
+DIRECT_NEAR = [0.1 + 0.2, 0.3, 1.0, 1.0 + 1e-12, 1.0 - 1e-12, 2.5, 2.5 - 1e-10, 1e-300, 5e-324, 0.0, -0.0,
+               -1e-300, 1e-9, 1e-10, 3, 1, 0]
+
+
+def vals_module():
+    """The helper module, created once per process and registered in `sys.modules` (never instrumented:
+    pynguin's import hook only instruments the module it is installed for)."""
+    mod = sys.modules.get(VALS_MODULE)
+    if mod is None:
+        mod = types.ModuleType(VALS_MODULE)
+        exec(compile(VALS_SRC, "<verif-c03-vals>", "exec"), mod.__dict__)  # noqa: S102
+        sys.modules[VALS_MODULE] = mod
+    return mod
+
+
+class CallRecorder:
+    """Records every callback made on the real `ExecutionTracer` (patched at class level, outside the
+    `_early_return` wrapper): nesting, how it ended, and — for top-level callbacks — the `enabled` flag
+    right after it.  JSON shape = the Lean driver's `CallJ`."""
+
+    METHODS = {
+        "executed_code_object": ("enter", 0, "code_object_id"),
+        "executed_compare_predicate": ("pred", 2, "predicate"),
+        "executed_bool_predicate": ("pred", 1, "predicate"),
+        "executed_in_presence_predicate": ("pred", 2, "predicate"),
+        "executed_exception_match": ("pred", 2, "predicate"),
+    }
+
+    def __init__(self):
+        self.top: list = []
+        self.after: list = []
+        self.stack: list = []
+        self.orphan_updates = 0
+        self._saved: dict = {}
+
+    def install(self):
+        from pynguin.instrumentation.tracer import ExecutionTrace, ExecutionTracer
+
+        rec = self
+        for name, (kind, pos, kw) in self.METHODS.items():
+            orig = getattr(ExecutionTracer, name)
+            self._saved[name] = orig
+
+            def wrapper(tracer, *a, _orig=orig, _kind=kind, _pos=pos, _kw=kw, **k):
+                r = {"kind": _kind, "id": a[_pos] if len(a) > _pos else k[_kw], "body": [], "upd": None,
+                     "raised": False}
+                is_top = not rec.stack
+                parent = rec.top if is_top else rec.stack[-1]["body"]
+                rec.stack.append(r)
+                try:
+                    return _orig(tracer, *a, **k)
+                except BaseException:
+                    r["raised"] = True
+                    raise
+                finally:
+                    rec.stack.pop()
+                    parent.append(r)
+                    if is_top:
+                        rec.after.append(not tracer.is_disabled())
+
+            setattr(ExecutionTracer, name, wrapper)
+        orig_update = ExecutionTrace.update_predicate_distances
+        self._saved["update"] = orig_update
+
+        def rec_update(trace, distance_true, distance_false, predicate):
+            if rec.stack:
+                rec.stack[-1]["upd"] = (distance_true, distance_false)
+            else:
+                rec.orphan_updates += 1
+            return orig_update(trace, distance_true, distance_false, predicate)
+
+        ExecutionTrace.update_predicate_distances = rec_update
+
+    def uninstall(self):
+        from pynguin.instrumentation.tracer import ExecutionTrace, ExecutionTracer
+
+        for name in self.METHODS:
+            if name in self._saved:
+                setattr(ExecutionTracer, name, self._saved[name])
+        if "update" in self._saved:
+            ExecutionTrace.update_predicate_distances = self._saved["update"]
+        self._saved = {}
+
+    @staticmethod
+    def to_json(r) -> dict:
+        if r["kind"] == "enter":
+            return {"enter": {"coid": r["id"]}}
+        if r["raised"]:
+            res = "raised"
+        elif r["upd"] is not None:
+            res = {"ok": {"dT": num_json(r["upd"][0]), "dF": num_json(r["upd"][1])}}
+        else:
+            res = "skipped"
+        return {"pred": {"p": r["id"], "body": [CallRecorder.to_json(b) for b in r["body"]], "res": res}}
+
+    def calls_json(self) -> list:
+        return [self.to_json(r) for r in self.top]
+
+    def stats(self) -> dict:
+        out = {"ok": 0, "raised": 0, "skipped": 0, "nested": 0}
+
+        def walk(rs, depth):
+            for r in rs:
+                if r["kind"] == "pred":
+                    out["raised" if r["raised"] else "ok" if r["upd"] is not None else "skipped"] += 1
+                if depth:
+                    out["nested"] += 1
+                walk(r["body"], depth + 1)
+
+        walk(self.top, 0)
+        return out
+
+
+class XGen:
+    """Small programs whose predicates compare values of mixed types / almost-equal floats: comparisons that
+    raise and are caught inside the function, inside a loop, by a caller — or not at all — followed by
+    further predicates.  `style` table: the int parameters select values from the helper module's tables
+    (plus objects of an in-module class whose operators never raise, so that callbacks nest);
+    `style` direct: the parameters are the operands."""
+
+    HANDLERS = ["TypeError", "ValueError", "KeyError", "(TypeError, ValueError)", "Exception", "LookupError",
+                "(KeyError, TypeError)", "ArithmeticError", "BaseException"]
+    CMPS = ["<", "<=", ">", ">=", "==", "!=", "<", "<=", "==", "in", "not in", "is", "is not"]
+
+    def __init__(self, rng: random.Random, theme: str, style: str):
+        self.rng, self.theme, self.style = rng, theme, style
+        self.tmp = 0
+
+    def lit(self):
+        pool = {"mixed": ["1", "'a'", "None", "2.5", "(1, 2)", "5"],
+                "near": ["0.3", "1.0", "0.0", "2.5", "1e-300", "(0.1 + 0.2)"],
+                "both": ["1", "'a'", "None", "0.3", "1.0", "0.0"]}[self.theme]
+        return self.rng.choice(pool)
+
+    def opnd(self):
+        return self.rng.choice(["x", "y", "z", "x", "y"]) if self.rng.random() < 0.85 else self.lit()
+
+    def cond(self, depth=0):
+        r = self.rng
+        k = r.random()
+        if k < 0.5:
+            op = r.choice(self.CMPS)
+            if op in ("is", "is not"):  # identity only between variables (a literal operand is a SyntaxWarning)
+                return f"{r.choice(['x', 'y', 'z'])} {op} {r.choice(['x', 'y', 'z'])}"
+            return f"{self.opnd()} {op} {self.opnd()}"
+        if k < 0.6:
+            return (f"{self.opnd()} {r.choice(['<', '<=', '=='])} {self.opnd()} "
+                    f"{r.choice(['<', '<=', '!='])} {self.opnd()}")
+        if k < 0.72:
+            return f"{r.choice(['', 'not '])}{r.choice(['x', 'y', 'z'])}"
+        if k < 0.82 and depth < 1:
+            return f"({self.cond(depth + 1)}) {r.choice(['and', 'or'])} ({self.cond(depth + 1)})"
+        if k < 0.9:
+            return f"{r.choice(['x', 'y', 'z'])} is {r.choice(['', 'not '])}None"
+        return f"{self.opnd()} - {self.opnd()} {r.choice(['==', '<=', '>'])} 0"
+
+    def plain(self):
+        r = self.rng
+        return r.choice([f"r > {r.randint(0, 40)}", "r % 2 == 0", "not r", "r", f"r != {r.randint(0, 9)}",
+                         f"r < {r.randint(1, 60)} and r != 3", f"n == {r.randint(0, 3)}"])
+
+    def inc(self):
+        return f"r += {self.rng.choice([1, 2, 4, 8, 16, 32])}"
+
+    @staticmethod
+    def ind(lines):
+        return ["    " + l for l in lines]
+
+    def body(self, depth, in_loop, n=None):
+        out = []
+        for _ in range(n if n is not None else self.rng.choice([1, 1, 2])):
+            out += self.stmt(depth, in_loop)
+        return out
+
+    def branch(self, depth, in_loop):
+        r = self.rng
+        if depth < 1 and r.random() < 0.15:
+            return self.body(depth + 1, in_loop, 1)
+        if r.random() < 0.12:
+            return [self.inc(), "return r"]
+        if in_loop and r.random() < 0.15:
+            return [self.inc(), r.choice(["break", "continue"])]
+        return [self.inc()]
+
+    def if_stmt(self, cond, depth, in_loop):
+        r = self.rng
+        out = [f"if {cond}:"] + self.ind(self.branch(depth, in_loop))
+        k = r.random()
+        if k < 0.25:
+            out += [f"elif {self.cond()}:"] + self.ind(self.branch(depth, in_loop))
+        if k < 0.6:
+            out += ["else:"] + self.ind(self.branch(depth, in_loop))
+        return out
+
+    def handlers(self, depth, in_loop):
+        r = self.rng
+        out = [f"except {r.choice(self.HANDLERS)}:"] + self.ind(self.branch(depth, in_loop))
+        if r.random() < 0.4:
+            out += [f"except {r.choice(self.HANDLERS)} as err:"] + self.ind([self.inc()])
+        if r.random() < 0.2:
+            out += ["else:"] + self.ind([self.inc()])
+        if r.random() < 0.2:
+            out += ["finally:"] + self.ind(["r += 1"])
+        return out
+
+    def guarded(self, inner, depth, in_loop):
+        return ["try:"] + self.ind(inner) + self.handlers(depth, in_loop)
+
+    def stmt(self, depth, in_loop):
+        r = self.rng
+        kinds = ["guard"] * 5 + ["plain"] * 3 + ["bare", "ternary", "assert", "tryfinally"]
+        if depth < 1:
+            kinds += ["for", "for", "while", "comp", "nested", "reselect"]
+            if self.style == "table":
+                kinds += ["call"]
+        k = r.choice(kinds)
+        if k == "guard":
+            inner = self.if_stmt(self.cond(), depth, in_loop)
+            if r.random() < 0.3:
+                inner += self.if_stmt(self.plain(), depth, in_loop)
+            return self.guarded(inner, depth, in_loop)
+        if k == "plain":
+            return self.if_stmt(self.plain(), depth, in_loop)
+        if k == "bare":
+            return self.if_stmt(self.cond(), depth, in_loop)
+        if k == "ternary":
+            line = f"r += (1 if {self.cond()} else 2)"
+            return self.guarded([line], depth, in_loop) if r.random() < 0.7 else [line]
+        if k == "assert":
+            return self.guarded([f"assert {self.cond()}", self.inc()], depth, in_loop)
+        if k == "tryfinally":
+            return ["try:"] + self.ind(self.if_stmt(self.cond(), depth + 1, in_loop)) + ["finally:", "    r += 1"]
+        if k == "for":
+            self.tmp += 1
+            i = f"i{self.tmp}"
+            sel = [f"x = T[(a + {i}) % N]"] if self.style == "table" else ["x, y = y, x"]
+            out = [f"for {i} in range({r.randint(1, 3)}):"] + self.ind(
+                ["n += 1"] + sel + self.body(depth + 1, True) + self.if_stmt(self.plain(), depth + 1, True))
+            if r.random() < 0.3:
+                out += ["else:"] + self.ind([self.inc()])
+            return out
+        if k == "while":
+            self.tmp += 1
+            w = f"w{self.tmp}"
+            loop = [f"while {w} < {r.randint(1, 3)} and ({self.cond()}):", f"    {w} += 1"] + self.ind(
+                self.body(depth + 1, True, 1))
+            return [f"{w} = 0"] + self.guarded(loop, depth, in_loop)
+        if k == "comp":
+            src = "T[:6]" if self.style == "table" else "(x, y, z, 1)"
+            line = f"r += len([e for e in {src} if e {r.choice(['<', '==', '<=', '!='])} {self.opnd()}])"
+            return self.guarded([line], depth, in_loop) if r.random() < 0.8 else [line]
+        if k == "nested":
+            inner = ["try:"] + self.ind(self.if_stmt(self.cond(), depth + 1, in_loop)) + [
+                f"except {r.choice(['KeyError', 'ZeroDivisionError', 'ValueError', 'TypeError'])}:", "    r += 64"]
+            return self.guarded(inner + self.if_stmt(self.plain(), depth + 1, in_loop), depth, in_loop)
+        if k == "reselect":
+            v = r.choice(["x", "y", "z"])
+            return [f"{v} = T[(r + c) % N]"] if self.style == "table" else [f"{v} = {self.lit()}"]
+        if k == "call":
+            line = f"r += h0({self.opnd()}, {self.opnd()})"
+            return self.guarded([line], depth, in_loop) if r.random() < 0.8 else [line]
+        raise AssertionError(k)
+
+    def module(self, n_funcs: int) -> str:
+        r = self.rng
+        table = {"mixed": "MIXED", "near": "NEAR", "both": "BOTH"}[self.theme]
+        lines = [f"from {VALS_MODULE} import {table}", "", "",
+                 "class Box:", "    def __init__(self, k):", "        self.k = k",
+                 "    def __lt__(self, other):",
+                 "        if isinstance(other, Box):", "            return self.k < other.k",
+                 "        return False",
+                 "    def __eq__(self, other):", "        return isinstance(other, Box) and self.k == other.k",
+                 "    def __hash__(self):", "        return self.k",
+                 "    def __bool__(self):", "        if self.k > 1:", "            return True",
+                 "        return False", "", "",
+                 f"T = list({table}) + [Box(1), Box(2), Box(2)]", "N = len(T)", "", "",
+                 "def h0(p, q):", f"    if p {r.choice(['<', '<=', '==', 'in'])} q:", "        return 1",
+                 "    if not q:", "        return 2", "    return 3", "", ""]
+        for i in range(n_funcs):
+            pre = (["x = T[a % N]", "y = T[b % N]", "z = T[c % N]"] if self.style == "table"
+                   else ["x, y, z = a, b, c"])
+            bodyl = (pre + ["r = 0", "n = 0"] + self.body(0, False, r.randint(2, 3))
+                     + self.if_stmt(self.plain(), 0, False) + ["return r"])
+            lines += [f"def f{i}(a, b, c):"] + self.ind(bodyl) + ["", ""]
+        # a caller that catches whatever the callee lets through and goes on
+        arg = "a + k" if self.style == "table" else "a"
+        handler = r.choice(["Exception", "TypeError", "(TypeError, ValueError, KeyError)"])
+        lines += ["def f9(a, b, c):", "    r = 0", "    for k in range(2):", "        try:",
+                  f"            r += f0({arg}, b, c)", f"        except {handler}:",
+                  "            r += 100", "        if r > 50:", "            r -= 1", "        else:",
+                  "            r += 3", "    return r", ""]
+        return "\n".join(lines) + "\n"
+
+
+XRUN_TABLE_SIZE = {"mixed": 23, "near": 23, "both": 43}
+
+
+def gen_xrun(seed: int):
+    rng = random.Random(seed)
+    theme = rng.choice(["mixed", "mixed", "near", "near", "both"])
+    style = rng.choice(["table", "table", "direct"])
+    nf = rng.choice([1, 1, 1, 2])
+    src = XGen(rng, theme, style).module(nf)
+    n_tab = XRUN_TABLE_SIZE[theme]
+    direct = {"mixed": DIRECT_MIXED, "near": DIRECT_NEAR, "both": DIRECT_MIXED + DIRECT_NEAR}[theme]
+
+    def args():
+        if style == "table":
+            return [rng.randrange(2 * n_tab) for _ in range(3)]
+        return [rng.choice(direct) for _ in range(3)]
+
+    calls = []
+    for i in range(nf):
+        for _ in range(rng.randint(2, 4)):
+            calls.append(["f", f"f{i}", args()])
+    for _ in range(rng.randint(1, 2)):
+        calls.append(["f", "f9", args()])
+    return src, calls
+
+
+# ---------------------------------------------------------------------------------------------
 # end-to-end runs
 # ---------------------------------------------------------------------------------------------
 def code_keys(code):
@@ -349,12 +732,13 @@ def cond_jumps(code):
 
 
 def num_json(x: float) -> dict:
+    # (`n`, `d` are always present: the driver's derived parser does not fill in defaults)
     if isinstance(x, float) and math.isnan(x):
-        return {"k": "nan"}
+        return {"k": "nan", "n": 0, "d": 1}
     if x == math.inf:
-        return {"k": "inf"}
+        return {"k": "inf", "n": 0, "d": 1}
     if x == -math.inf:
-        return {"k": "ninf"}
+        return {"k": "ninf", "n": 0, "d": 1}
     fr = Fraction(x)
     return {"k": "fin", "n": fr.numerator, "d": fr.denominator}
 
@@ -363,28 +747,23 @@ def run_program(src: str, calls) -> dict:
     """Instrumented run through the real import hook + uninstrumented monitored run."""
     from pynguin.ga.coveragegoals import BranchGoalPool
     from pynguin.instrumentation import controlflow as cf
-    from pynguin.instrumentation.tracer import ExecutionTrace
     from pynguin.testcase.execution import ExecutionResult
 
-    events: list = []
-    orig_update = ExecutionTrace.update_predicate_distances
-
-    def rec_update(self, distance_true, distance_false, predicate):
-        events.append({"pred": {"p": predicate, "dT": num_json(distance_true), "dF": num_json(distance_false)}})
-        return orig_update(self, distance_true, distance_false, predicate)
-
+    vals_module()
+    rec = CallRecorder()
     try:
-        ExecutionTrace.update_predicate_distances = rec_update
+        rec.install()
         mod, sp, tmp = instr_helper.instrument_module(src)
     except Exception as e:  # noqa: BLE001 - instrumentation/import failed: an observation
-        ExecutionTrace.update_predicate_distances = orig_update
+        rec.uninstall()
         return {"err": type(e).__name__, "msg": str(e)[:300]}
     try:
         tracer = sp.instrumentation_tracer.tracer
         with sp.instrumentation_tracer:
             res_instr = [run_call(mod, c) for c in calls]
         trace = tracer.get_trace()
-        ExecutionTrace.update_predicate_distances = orig_update
+        final_enabled = not tracer.is_disabled()
+        rec.uninstall()
         code, branches, entered, res_plain = ground_truth(src, calls, mod.__file__)
         result = ExecutionResult()
         result.execution_trace = trace
@@ -451,12 +830,13 @@ def run_program(src: str, calls) -> dict:
             "cos_with_pred": sorted(okeys[c] for c in pred_cos),
             "coids": {okeys[c]: c for c in okeys},
             "executed_cos": sorted(okeys[c] for c in trace.executed_code_objects),
-            "events": events,
+            "calls": rec.calls_json(), "after": rec.after, "final_enabled": final_enabled,
+            "callstats": rec.stats(), "orphan_updates": rec.orphan_updates,
             "npreds": len(sp.existing_predicates),
             "executed_preds": sorted(trace.executed_predicates),
         }
     finally:
-        ExecutionTrace.update_predicate_distances = orig_update
+        rec.uninstall()
         instr_helper.cleanup(tmp, mod)
 
 
@@ -549,11 +929,236 @@ def run_program_forked(src: str, calls) -> dict:
     return _WORKER.run(src, calls)
 
 
+# ---------------------------------------------------------------------------------------------
+# tracer-level histories (no instrumentation): callbacks on a real ExecutionTracer / records on a real trace
+# ---------------------------------------------------------------------------------------------
+CB_NPREDS = 48          # predicate ids 0..3 are the program's, 40..43 belong to the simulated operator code
+CB_COIDS = [0, 1, 2, 3, 50, 51, 52, 53]
+CB_OPS = ["LT", "LE", "EQ", "NE", "GT", "GE", "IN", "NOT_IN", "IS", "IS_NOT"]
+CB_ERRS = ["KeyError('k')", "ValueError()", "TypeError()", "ZeroDivisionError()", "IndexError()", "OverflowError()"]
+CB_EXCS = ["KeyError", "LookupError", "(TypeError, ValueError)", "Exception", "ArithmeticError", "OSError",
+           "BaseException"]
+#: index clusters of `BOTH` (= MIXED + NEAR, NEAR starts at 20) holding almost-equal values
+CB_NEAR_CLUSTERS = [[20, 21], [22, 23, 24], [25, 26], [27, 28, 29, 30, 31, 32, 33, 36], [37, 38], [35, 22, 1, 13]]
+
+
+def _py_ops():
+    import operator
+    return {"LT": operator.lt, "LE": operator.le, "EQ": operator.eq, "NE": operator.ne, "GT": operator.gt,
+            "GE": operator.ge, "IN": lambda a, b: a in b, "NOT_IN": lambda a, b: a not in b,
+            "IS": operator.is_, "IS_NOT": operator.is_not}
+
+
+def run_callbacks(evs: list) -> dict:
+    """What instrumented code does around a predicate, without the instrumentation: the callback on a real
+    `ExecutionTracer`, then the operation the interpreter performs itself (its outcome is the branch taken;
+    if it raises no branch is taken and the program may go on)."""
+    from pynguin.ga.coveragegoals import BranchGoal, BranchlessCodeObjectGoal
+    from pynguin.instrumentation import PynguinCompare
+    from pynguin.instrumentation.tracer import ExecutionTracer
+    from pynguin.testcase.execution import ExecutionResult
+
+    vals = vals_module()
+    tracer = ExecutionTracer()
+    tracer.__enter__()
+
+    class Cb:
+        """An operand of a class of the module under test whose operator code is instrumented: it makes
+        callbacks of its own (code object 50+k, predicate 40+k); k == 3 raises afterwards."""
+
+        def __init__(self, k):
+            self.k = k
+
+        def _code(self):
+            tracer.executed_code_object(50 + self.k)
+            tracer.executed_bool_predicate(self.k % 2 == 0, 40 + self.k)
+            if self.k == 3:
+                raise TypeError("Cb(3)")
+
+        def __lt__(self, other):
+            self._code()
+            return self.k < getattr(other, "k", 1)
+
+        __gt__ = __le__ = __ge__ = __lt__
+
+        def __eq__(self, other):
+            self._code()
+            return self.k == getattr(other, "k", None)
+
+        def __ne__(self, other):
+            self._code()
+            return self.k != getattr(other, "k", None)
+
+        __hash__ = None
+
+        def __bool__(self):
+            self._code()
+            return self.k > 0
+
+        def __contains__(self, item):
+            self._code()
+            return item == 1
+
+    allv = list(vals.BOTH) + [Cb(0), Cb(1), Cb(2), Cb(3)]
+    ops = _py_ops()
+    taken: dict = {}
+    entered: set = set()
+    diverged = False
+    rec = CallRecorder()
+    rec.install()
+    try:
+        for ev in evs:
+            if ev[0] == "enter":
+                tracer.executed_code_object(ev[1])
+                entered.add(ev[1])
+                continue
+            pid = ev[1]
+            if ev[0] == "cmp":
+                v1, v2 = allv[ev[3] % len(allv)], allv[ev[4] % len(allv)]
+                callback = lambda: tracer.executed_compare_predicate(v1, v2, pid, PynguinCompare[ev[2]])  # noqa: E731,B023
+                python = lambda: bool(ops[ev[2]](v1, v2))  # noqa: E731,B023
+            elif ev[0] == "bool":
+                v = allv[ev[2] % len(allv)]
+                callback = lambda: tracer.executed_bool_predicate(v, pid)  # noqa: E731,B023
+                python = lambda: bool(v)  # noqa: E731,B023
+            elif ev[0] == "exc":
+                err, exc = eval(CB_ERRS[ev[2]]), eval(CB_EXCS[ev[3]])  # noqa: S307 - fixed literals above
+                callback = lambda: tracer.executed_exception_match(err, exc, pid)  # noqa: E731,B023
+                python = lambda: isinstance(err, exc)  # noqa: E731,B023
+            else:
+                raise ValueError(ev[0])
+            try:
+                callback()
+                cb_raised = None
+            except Exception as e:  # noqa: BLE001 - the evaluation inside the callback raised
+                cb_raised = type(e).__name__
+            try:
+                outcome = python()
+                py_raised = None
+            except Exception as e:  # noqa: BLE001 - the operation raises: the interpreter takes no branch
+                outcome, py_raised = None, type(e).__name__
+            if cb_raised != py_raised:
+                diverged = True   # the callback changes the program's behaviour: C01/C04's subject
+            if py_raised is None:
+                taken.setdefault(pid, set()).add(outcome)
+        final_enabled = not tracer.is_disabled()
+    finally:
+        rec.uninstall()
+    result = ExecutionResult()
+    result.execution_trace = tracer.get_trace()
+
+    def covered(goal):
+        try:
+            return bool(goal.is_covered(result))
+        except Exception as e:  # noqa: BLE001
+            return {"err": type(e).__name__}
+
+    return {
+        "err": None, "calls": rec.calls_json(), "after": rec.after, "final_enabled": final_enabled,
+        "callstats": rec.stats(), "orphan_updates": rec.orphan_updates, "npreds": CB_NPREDS, "coid_list": CB_COIDS,
+        "covered": {str(p): [covered(BranchGoal(0, p, value=True)), covered(BranchGoal(0, p, value=False))]
+                    for p in range(CB_NPREDS)},
+        "cos": {str(c): covered(BranchlessCodeObjectGoal(c)) for c in CB_COIDS},
+        "executed_preds": sorted(tracer.get_trace().executed_predicates),
+        "taken": {str(p): sorted(v) for p, v in taken.items()}, "entered": sorted(entered),
+        "diverged": diverged,
+    }
+
+
+HIST_MISSED = ["5e-324", "1e-300", "5.551115123125783e-17", "1e-12", "1e-10", "9.99e-10", "1e-09", "1.0000001e-09",
+               "1e-06", "0.5", "1.0", "7.0", "1e+300", "inf"]
+
+
+def run_history(evs: list) -> dict:
+    """C04-good records (distance of the outcome taken 0.0, the other one positive) through the real
+    `ExecutionTrace.update_predicate_distances` and the real goals."""
+    from pynguin.ga.coveragegoals import BranchGoal, BranchlessCodeObjectGoal
+    from pynguin.instrumentation.tracer import ExecutionTrace
+    from pynguin.testcase.execution import ExecutionResult
+
+    trace = ExecutionTrace()
+    for ev in evs:
+        if ev[0] == "enter":
+            trace.executed_code_objects.add(ev[1])
+        else:
+            _, p, outcome, missed = ev
+            d = float(missed)
+            trace.update_predicate_distances(0.0 if outcome else d, d if outcome else 0.0, p)
+    result = ExecutionResult()
+    result.execution_trace = trace
+
+    def covered(goal):
+        try:
+            return bool(goal.is_covered(result))
+        except Exception as e:  # noqa: BLE001
+            return {"err": type(e).__name__}
+
+    return {"err": None, "npreds": 5, "coid_list": [0, 1, 2],
+            "covered": {str(p): [covered(BranchGoal(0, p, value=True)), covered(BranchGoal(0, p, value=False))]
+                        for p in range(5)},
+            "cos": {str(c): covered(BranchlessCodeObjectGoal(c)) for c in [0, 1, 2]},
+            "executed_preds": sorted(trace.executed_predicates)}
+
+
+def describe_callbacks(evs: list) -> str:
+    vals = vals_module()
+    names = [repr(v) if len(repr(v)) < 30 else repr(v)[:12] + "…" for v in vals.BOTH] + ["Cb(0)", "Cb(1)", "Cb(2)", "Cb(3)"]
+    out = []
+    for ev in evs:
+        if ev[0] == "enter":
+            out.append(f"enter {ev[1]}")
+        elif ev[0] == "cmp":
+            out.append(f"predicate {ev[1]}: {names[ev[3] % len(names)]} {ev[2]} {names[ev[4] % len(names)]}")
+        elif ev[0] == "bool":
+            out.append(f"predicate {ev[1]}: truth value of {names[ev[2] % len(names)]}")
+        else:
+            out.append(f"predicate {ev[1]}: {CB_ERRS[ev[2]]} matches {CB_EXCS[ev[3]]}")
+    return "; ".join(out)
+
+
+def gen_cb(rng: random.Random) -> dict:
+    evs = []
+    nvals = 44
+    for _ in range(rng.randint(3, 14)):
+        k = rng.random()
+        pid = rng.randrange(4)
+        if k < 0.1:
+            evs.append(["enter", rng.randrange(4)])
+        elif k < 0.7:
+            if rng.random() < 0.4:
+                cl = rng.choice(CB_NEAR_CLUSTERS)
+                i, j = rng.choice(cl), rng.choice(cl)
+            else:
+                i, j = rng.randrange(nvals), rng.randrange(nvals)
+            evs.append(["cmp", pid, rng.choice(CB_OPS), i, j])
+        elif k < 0.9:
+            evs.append(["bool", pid, rng.randrange(nvals)])
+        else:
+            evs.append(["exc", pid, rng.randrange(len(CB_ERRS)), rng.randrange(len(CB_EXCS))])
+    return {"kind": "cb", "evs": evs}
+
+
+def gen_hist(rng: random.Random) -> dict:
+    evs = []
+    for _ in range(rng.randint(1, 10)):
+        if rng.random() < 0.15:
+            evs.append(["enter", rng.randrange(3)])
+        else:
+            evs.append(["eval", rng.randrange(4), rng.random() < 0.5, rng.choice(HIST_MISSED)])
+    return {"kind": "hist", "evs": evs}
+
+
 def gen_calls(rng: random.Random, src: str, n_funcs: int) -> list:
     calls = []
+    odd = rng.random() < 0.5   # half of the programs also get non-int arguments
     for i in range(n_funcs):
         for _ in range(rng.randint(1, 3)):
-            calls.append(["f", f"f{i}", [rng.randint(-3, 6) for _ in range(3)]])
+            args = [rng.randint(-3, 6) for _ in range(3)]
+            if odd and rng.random() < 0.6:
+                # a, b take part in arithmetic first (floats survive it), c is compared as it is
+                k = rng.randrange(3)
+                args[k] = rng.choice(DIRECT_NEAR if k < 2 or rng.random() < 0.4 else DIRECT_MIXED)
+            calls.append(["f", f"f{i}", args])
     if "def gen0" in src:
         calls.append(["g", "gen0", [rng.randint(-3, 6) for _ in range(3)]])
     if "class K0" in src:
@@ -620,13 +1225,15 @@ class C03(PropertyCheck):
     prop_modules = ["PynguinModel.Props.C03"]
     extra_modules = ["PynguinModel.Generated.C03Jumps", "PynguinModel.Model.BranchInstr"]
     driver = "Driver/C03.lean"
-    n_quick = 170
-    n_thorough = 1500
+    n_quick = 200
+    n_thorough = 1700
     n_search = 400
     rule = ("structural cases: code objects of progen programs / pure-Python stdlib modules, non-trivial = "
             "distinct block structure with at least one predicate; run cases: progen modules executed on random "
-            "ints (plus directed programs), non-trivial = distinct (program, inputs) with at least one executed "
-            "predicate")
+            "ints / floats / mixed-type values and XGen modules (comparisons that raise and are caught, almost-equal "
+            "floats) plus directed programs, non-trivial = distinct (program, inputs) with at least one executed "
+            "predicate; tracer-level cases (callback histories on a real ExecutionTracer, good-record histories on a "
+            "real ExecutionTrace), non-trivial = distinct history with at least one evaluation")
     assumptions = [
         "CPython's semantics of the conditional jumps is a hand table (`jumps`), validated by micro-executions "
         "under sys.monitoring on every run",
@@ -672,10 +1279,17 @@ class C03(PropertyCheck):
     # -- generation ---------------------------------------------------------------------------
     def gen_case(self, rng):
         r = rng.random()
-        if r < 0.11:
+        if r < 0.07:
             # end-to-end run (the real import hook is slow: ~1 s per module)
             return {"kind": "run", "seed": rng.randrange(1 << 30), "nf": rng.choice([1, 1, 2])}
-        if r < 0.45:
+        if r < 0.14:
+            # end-to-end run of a program whose comparisons raise / are near misses
+            return {"kind": "xrun", "seed": rng.randrange(1 << 30)}
+        if r < 0.29:
+            return gen_cb(rng)
+        if r < 0.37:
+            return gen_hist(rng)
+        if r < 0.60:
             if self._std is None:
                 self._std = progen.stdlib_code_objects()
             i = rng.randrange(len(self._std))
@@ -700,19 +1314,32 @@ class C03(PropertyCheck):
         if key in self._cache:
             return self._cache[key]
         kind = case["kind"]
-        if kind in ("run", "runsrc"):
+        if kind in ("cb", "hist"):
+            out = run_callbacks(case["evs"]) if kind == "cb" else run_history(case["evs"])
+            out["kind"] = kind
+            self.count("kind:" + kind)
+            if kind == "cb":
+                for k, v in out["callstats"].items():
+                    self.count("cb:callbacks-" + k, v)
+            self._cache[key] = out
+            return out
+        if kind in ("run", "runsrc", "xrun"):
             if kind == "run":
                 rng = random.Random(case["seed"])
                 src = progen.gen_module(rng, n_funcs=case["nf"])
                 calls = gen_calls(rng, src, case["nf"])
+            elif kind == "xrun":
+                src, calls = gen_xrun(case["seed"])
             else:
                 src, calls = case["src"], case["calls"]
             out = run_program_forked(src, calls)
             out["kind"] = "run"
-            self.count("kind:run")
+            self.count("kind:" + kind)
             if out["err"] is None:
                 self.count("run:predicates", out["npreds"])
-                self.count("run:callbacks", len(out["events"]))
+                for k, v in out["callstats"].items():
+                    self.count("run:callbacks-" + k, v)
+                self.count("run:calls-ending-in-exception", sum(1 for r in out["res_plain"] if r[0] == "exc"))
                 for p in out["preds"]:
                     if p["kth"] is not None:
                         self.count("run:jump:" + out["jumps"][p["co"]][p["kth"]]["op"])
@@ -740,9 +1367,17 @@ class C03(PropertyCheck):
             return vcommon.jdump({"cfg": {"c": {"blocks": io["before"], "coid": io["coid"], "order": io["order"]}}})
         if io["err"] is not None:
             return None
-        evs = [{"enter": {"coid": io["coids"][k]}} for k in io["executed_cos"]] + io["events"]
-        return vcommon.jdump({"trace": {"c": {"evs": evs, "npreds": io["npreds"],
-                                              "coids": sorted(io["coids"].values())}}})
+        if io["kind"] == "hist":
+            evs = []
+            for ev in case["evs"]:
+                if ev[0] == "enter":
+                    evs.append({"enter": {"coid": ev[1]}})
+                else:
+                    d, zero = num_json(float(ev[3])), num_json(0.0)
+                    evs.append({"pred": {"p": ev[1], "dT": zero if ev[2] else d, "dF": d if ev[2] else zero}})
+            return vcommon.jdump({"trace": {"c": {"evs": evs, "npreds": io["npreds"], "coids": io["coid_list"]}}})
+        coids = io["coid_list"] if io["kind"] == "cb" else sorted(io["coids"].values())
+        return vcommon.jdump({"calls": {"c": {"calls": io["calls"], "npreds": io["npreds"], "coids": coids}}})
 
     def compare(self, case, io, mo):
         if "bad-op" in mo or "unparsable" in mo:
@@ -763,6 +1398,20 @@ class C03(PropertyCheck):
                     and mo["pool"]["branchless"] == io["pool"]["branchless"])
         if io["err"] is not None:
             return True
+        if io["kind"] != "hist":
+            # the model tracer accepts every recorded callback, ends each top-level callback with the same
+            # `enabled` flag as the real tracer, and no distance was recorded outside a callback
+            if mo["rejected"] is not None or mo["flags"] != io["after"] or mo["enabled"] != io["final_enabled"] \
+                    or io["orphan_updates"]:
+                return False
+        if io["kind"] in ("cb", "hist"):
+            for pid, ct, cf_ in mo["branch"]:
+                if [ct, cf_] != io["covered"][str(pid)]:
+                    return False
+            for coid, ent in mo["entered"]:
+                if ent != io["cos"][str(coid)]:
+                    return False
+            return sorted(mo["executed"]) == io["executed_preds"]
         want = {p["pid"]: p["covered"] for p in io["preds"]}
         for pid, ct, cf_ in mo["branch"]:
             if [ct] != want[pid]["true"] or [cf_] != want[pid]["false"]:
@@ -796,6 +1445,8 @@ class C03(PropertyCheck):
             if io["pool"]["branchless"] != ([] if io["preds"] else [io["coid"]]):
                 fs.append(Failure({"class": "pool-branchless"}, "branch-less goal does not match 'no predicate'"))
             return fs
+        if io["kind"] in ("cb", "hist"):
+            return self._oracle_tracer_level(case, io)
         if io["err"] is not None:
             fs.append(Failure({"class": "instrumentation-raises", "err": io["err"]},
                               f"importing / running the module instrumented for branch coverage fails with "
@@ -854,12 +1505,53 @@ class C03(PropertyCheck):
                                   f"entered={co in io['entered']}"))
         return fs
 
+    def _oracle_tracer_level(self, case, io):
+        """reported <=> taken on a history fed to the real tracer / trace: `taken` is what Python itself
+        yields for the operation (cb) or the outcome the record was built for (hist)."""
+        fs = []
+        if io["kind"] == "cb":
+            if io["diverged"]:
+                self.count("guard:callback-raises-differently-from-the-operation")
+                return fs
+            taken = {int(p): set(v) for p, v in io["taken"].items()}
+            entered, pids, coids = set(io["entered"]), range(4), range(4)
+            text = describe_callbacks(case["evs"])
+        else:
+            taken, entered = {}, set()
+            for ev in case["evs"]:
+                if ev[0] == "enter":
+                    entered.add(ev[1])
+                else:
+                    taken.setdefault(ev[1], set()).add(ev[2])
+            pids, coids = range(io["npreds"]), io["coid_list"]
+            text = "; ".join(f"enter {e[1]}" if e[0] == "enter" else
+                             f"predicate {e[1]} takes {e[2]}, distance of the other outcome {e[3]}" for e in case["evs"])
+        for p in pids:
+            for k, v in enumerate((True, False)):
+                rep = io["covered"][str(p)][k]
+                want = v in taken.get(p, set())
+                if isinstance(rep, dict):
+                    fs.append(Failure({"class": "is-covered-raises", "level": io["kind"], "err": rep["err"]},
+                                      f"BranchGoal({p}, {v}).is_covered raises {rep['err']} after: {text}"))
+                elif rep != want:
+                    fs.append(Failure({"class": "reported-vs-taken", "level": io["kind"], "value": v, "reported": rep},
+                                      f"goal ({p}, {v}) reported covered={rep} but that outcome was "
+                                      f"{'taken' if want else 'never taken'} in the history: {text}"))
+        for c in coids:
+            rep = io["cos"][str(c)]
+            if rep != (c in entered):
+                fs.append(Failure({"class": "branchless-reported-vs-entered", "level": io["kind"], "reported": rep},
+                                  f"code object {c}: reported covered={rep}, entered={c in entered} in the history: {text}"))
+        return fs
+
     def classify(self, case, io):
         if io["err"] is not None:
             return None
         if io["kind"] == "cfg":
             return vcommon.jdump(io["before"]) if io["preds"] else None
-        return vcommon.jdump(case) if io["events"] else None
+        if io["kind"] in ("cb", "hist"):
+            return vcommon.jdump(case) if io["executed_preds"] else None
+        return vcommon.jdump(case) if io["callstats"]["ok"] else None
 
     def extra_checks(self):
         bad = micro_check()
